@@ -829,6 +829,42 @@ def run_convergence(ctx, r, drv):
                 ctx.mismatch(f"Klong.C02 impl {adv} vs adverbs.py", dict(text=shown), "err / out of fuel", U.show(got))
 
 
+# (key, adverb expression, its definition written out) — documented cases that once deviated; both sides run on the
+# real interpreter under the step budget, so a loop that never ends is reported, not waited for
+WITNESS_PAIRS = [
+    ("each-left:atom-right", "1,:\\2", "1,2"), ("each-right:atom-right", "1,:/2", "2,1"),
+    ("each-left:atom-right", "[1 2],:\\3", "[1 2],3"), ("each-right:atom-right", "1-:/5", "5-1"),
+    ("each-left:atom-right", "1,:\\:foo", "1,:foo"), ("each-right:atom-right", "1,:/0cx", "0cx,1"),
+    ("each-left:atom-right", "2{x*y}:\\3", "{x*y}(2;3)"), ("each-left:empty", "1,:\\[]", "[]"),
+    ("iterate:computed-count", "(1+1){x+1}:*0", "{x+1}({x+1}(0))"), ("iterate:computed-count", "(+/[1 1]){x*2}:*3", "{x*2}({x*2}(3))"),
+    ("iterate:computed-count", "([2 3]@0){1,x}:*[]", "[1 1]"), ("iterate:computed-count", "(1-1){x+1}:*5", "5"),
+    ("scan-iterating:computed-count", "(1+1){x+1}\\*0", "[0 1 2]"), ("scan-iterating:computed-count", "(#[7 8 9]){1,x}\\*[]", "3{1,x}\\*[]"),
+    ("over:%:zero-divisor", "%/[1 0]", "1%0"), ("over:%:zero-divisor", "%/[4 2 0]", "(4%2)%0"), ("over:%:zero-divisor", "%/[1 0 0]", "{x%y}/[1 0 0]"),
+    ("scan:%:zero-divisor", "%\\[4 2 0]", "{x%y}\\[4 2 0]"), ("over:%:zero-divisor", "%/[[8 4] [2 0]]", "{x%y}/[[8 4] [2 0]]"),
+    ("over:%", "%/[8 2 2]", "(8%2)%2"), ("over:%", "%/[0 2]", "0%2"),
+]
+
+
+def run_witness_pairs(ctx, r):
+    for key, text, expansion in WITNESS_PAIRS:
+        st1, v1 = guarded(lambda: r.k(text), 200000)
+        st2, v2 = guarded(lambda: r.k(expansion), 200000)
+        ctx.count(("witness-pair", text), nontrivial=True)
+        ctx.bump("witness-pairs")
+        if st2 != "ok":
+            continue            # the written-out definition itself is outside the reference
+        want = norm(U.canon(v2))
+        if st1 != "ok":
+            ctx.oracle_fail(key, dict(text=text, expansion=expansion), U.show(want),
+                            "does not return within the step budget" if st1 == "hang" else f"raises {type(v1).__name__}",
+                            "adverb differs from its definition written out")
+            continue
+        got = norm(U.canon(v1))
+        if not U.veq(want, got):
+            ctx.oracle_fail(key, dict(text=text, expansion=expansion), U.show(want), U.show(got),
+                            "adverb differs from its definition written out")
+
+
 TORCH_OPS = ["+", "-", "*", "%", "&", "|"]
 TORCH_VECS = ["[1 2 3]", "[5 -3 2 7]", "[2 2 1 2]", "[1.5 -2.5]", "[0.5 1.5 2.5]", "[[1 2] [3 4]]", "[[1 2 3] [4 5 6]]",
               "[[0.5 1.5] [2.5 3.5]]", "[7]", "[1 2 3 4 5]",
@@ -991,6 +1027,7 @@ def run(ctx):
                 ctx.sample(dict(text=shown, expansion=U.show(want), real=U.show(got)))
         run_convergence(ctx, r, drv)
         run_torch_shortcuts(ctx)
+        run_witness_pairs(ctx, r)
         run_chains(ctx, r, drv)
         run_redefinition(ctx, r)
     finally:
